@@ -149,7 +149,7 @@ func TestVerifyRequest(t *testing.T) {
 		class := gen.Pick(t, []string{"honest", "flip-requestkey", "flip-namekeyid", "flip-ciphertext", "flip-signature",
 			"sig-from-other-client", "sig-from-other-blind", "whole-request-other-blind", "sig-malleated", "sig-extreme",
 			"blind-other", "blind-leading-zero", "blind-empty", "clientkey-other", "clientkey-negated", "clientkey-malformed", "requestkey-malformed",
-			"ciphertext-other-request", "requestkey-other-client"}, "class")
+			"ciphertext-other-request", "requestkey-other-client", "namekeyid-extended", "namekeyid-shortened", "ciphertext-extended", "ciphertext-shortened"}, "class")
 		switch class {
 		case "flip-requestkey":
 			flip(t, req.RequestKey, "bit")
@@ -209,6 +209,14 @@ func TestVerifyRequest(t *testing.T) {
 			case 2:
 				req.RequestKey = req.RequestKey[:48]
 			}
+		case "namekeyid-extended":
+			req.NameKeyID = append(req.NameKeyID, gen.Bytes(t, 1, 4, "extra")...)
+		case "namekeyid-shortened":
+			req.NameKeyID = req.NameKeyID[:len(req.NameKeyID)-gen.UniformRange(t, 1, 3, "drop")]
+		case "ciphertext-extended":
+			req.EncryptedTokenRequest = append(req.EncryptedTokenRequest, gen.Bytes(t, 1, 4, "extra")...)
+		case "ciphertext-shortened":
+			req.EncryptedTokenRequest = req.EncryptedTokenRequest[:len(req.EncryptedTokenRequest)-1]
 		case "ciphertext-other-request":
 			req.EncryptedTokenRequest = append([]byte{}, sameClient.Request().EncryptedTokenRequest...)
 		case "requestkey-other-client":
